@@ -242,7 +242,8 @@ ExecStmt(p, M, s) ==
       [] s.k = "do" ->
            IF en.lp.k = "do" /\ en.lp.again /\ s.post # "" THEN
                 LET r == Eval(s.postc, cx, 0) IN
-                OnEval(p, M, r, ln, LAMBDA v :
+                \* the condition is part of the LOOP statement: errors are reported against its line
+                OnEval(p, M, r, s.loopln, LAMBDA v :
                   IF Truth(v) = (s.post = "while")
                   THEN (IF s.body = <<>> THEN [SetLp(M, [k |-> "do", again |-> TRUE]) EXCEPT !.ev = NoEv]
                         ELSE Enter(SetLp(M, [k |-> "do", again |-> FALSE]), "body", 0))
